@@ -56,6 +56,31 @@ def make_judges(ctx):
                 and len(ev.result_snap.shape) == 0 and len(ev.pre[0].shape) > 0:
             ctx.floor_hit(('element-of-wide-array',))
 
+    def unary_side_judge(ev):
+        """-x and abs(x) store their exact result into the operand's format: when it does not fit and the result saturates, it ends on the bound of the
+        exact result's own side (the negation of an unsigned code is never the maximum)"""
+        if ev.kind != 'method' or ev.op not in ('__neg__', '__abs__') or ev.exc is not None or not ev.pre or ev.pre[0] is None or ev.result_snap is None:
+            return
+        x, res = ev.pre[0], ev.result_snap
+        if x.is_complex or res.is_complex or x.scaled or res.overflow != 'saturate' or res.fmt() != x.fmt() or not x.ints_ok:
+            return
+        lo, hi = R.code_range(res.signed, res.n_word)
+        bad = None
+        n_out = 0
+        for k, got in zip(x.codes, res.codes):
+            e = -k if ev.op == '__neg__' else abs(k)
+            if lo <= e <= hi:
+                continue
+            n_out += 1
+            want = hi if e > hi else lo
+            if got != want and bad is None:
+                bad = '%s of code %d in %s: exact result %d is %s the range, stored %r instead of the bound %d' % (ev.op, k, R.dtype_fxp(*x.fmt()), e, 'above' if e > hi else 'below', got, want)
+        if bad:
+            ctx.violation('saturation_side', bad, ev, key='saturate.unary')
+        if n_out:
+            ctx.judged(('unary-side', ev.op, 's' if x.signed else 'u', G.word_class(x.n_word)), True, None, elements=n_out)
+            ctx.floor_hit(('unary-out-of-range', 's' if x.signed else 'u'))
+
     def saturation_judge(ev):
         if ev.op not in STORE_OPS or ev.exc is not None and False:
             return
@@ -94,7 +119,7 @@ def make_judges(ctx):
         ctx.floor_hit(('saturate', kind, mag))
         if si.raw:
             ctx.floor_hit(('saturate-raw', mag))
-    return [wellformed_judge, saturation_judge, getitem_judge]
+    return [wellformed_judge, saturation_judge, getitem_judge, unary_side_judge]
 
 
 def _short(v):
@@ -107,7 +132,7 @@ def _is_float(c):
 
 
 def floors(tier):
-    return [('saturate', 'int', 'huge'), ('saturate', 'float', 'huge'), ('saturate', 'int', 'moderate'), ('saturate', 'float', 'moderate'), ('saturate-raw', 'huge'), ('saturate-raw', 'moderate'), ('element-of-wide-array',), ('partly-inferred-sizes',)]
+    return [('saturate', 'int', 'huge'), ('saturate', 'float', 'huge'), ('saturate', 'int', 'moderate'), ('saturate', 'float', 'moderate'), ('saturate-raw', 'huge'), ('saturate-raw', 'moderate'), ('element-of-wide-array',), ('partly-inferred-sizes',), ('unary-out-of-range', 's'), ('unary-out-of-range', 'u')]
 
 
 # ------------------------------------------------------------------------------------------ workload
@@ -171,6 +196,34 @@ def run_wideidx(case, ctx):
         _try(lambda: e.raw())
     _try(lambda: x1.__setitem__(0, x1[1]))
     _try(lambda: x2.__setitem__((0, 0), x2[1, 1]))
+    # a store by the empty index into an element object (its value is a python integer): the new code is held exactly
+    for newc in (hi, lo, cs[3]):
+        e = _try(lambda: x1[0])
+        if e is None:
+            continue
+        ctx.mon.enabled = False
+        try:
+            try:
+                e.set_val(newc, raw=True, index=())
+                got = int(np.asarray(e.val, dtype=object).item())
+                if got != newc:
+                    ctx.violation('U1_element_store', 'element of a %s array: set_val(%d, raw=True, index=()) left code %d' % (R.dtype_fxp(s, w, nf), newc, got), key='u1.element_store')
+            except Exception as ex:
+                ctx.violation('U1_element_store', 'element of a %s array: set_val(%d, raw=True, index=()) raised %s: %s' % (R.dtype_fxp(s, w, nf), newc, type(ex).__name__, str(ex)[:80]), key='u1.element_store')
+        finally:
+            ctx.mon.enabled = True
+        ctx.judged(('element-store', w, s), True, None)
+    # negation / abs of codes whose exact result leaves the format (unsigned codes, the most negative code)
+    for wu in (8, 16, 33, 52, 63):
+        for su in (False, True):
+            lo_u, hi_u = R.code_range(su, wu)
+            cu = [hi_u, 1, 0, lo_u, rng.randint(lo_u, hi_u)]
+            xu = _try(lambda: Fxp(np.array(cu, dtype=object if wu >= 63 else None), su, wu, rng.choice([0, 2]), raw=True))
+            if xu is not None:
+                _try(lambda: -xu)
+                _try(lambda: abs(xu))
+                _try(lambda: -xu[0])
+                _try(lambda: -Fxp(int(cu[1]), su, wu, 0, raw=True))
 
 
 SIZINGS = ['optimal', 'same', 'largest', 'smallest', 'fit']
